@@ -250,7 +250,10 @@ def explore(jobs, workers=None, chunk=40, max_paths=None, deadline=None, progres
         pj['violations'] += r['status_counts'].get('violation', 0)
         for w in r['witnesses']:
             w['job'] = r['job']
-            if len(agg['witnesses']) < 200:
+            key = (r['job'], w.get('label'))
+            n = agg.setdefault('_wcount', {}).get(key, 0)
+            if n < 2 and len(agg['witnesses']) < 2000:
+                agg['_wcount'][key] = n + 1
                 agg['witnesses'].append(w)
         for s in r['samples']:
             if len(agg['samples']) < 40:
